@@ -231,6 +231,7 @@ pub fn gen_case(seed: u64, o: &GenOpts) -> StoreCase {
         none_mod: *r.pick(&[0u32, 3, 5]),
         post_mod: *r.pick(&[0u32, 4, 7]),
         default_status: *r.pick(&[0u8, 0, 1]),
+        group_hook: false,
     };
     // a metric may keep NO observation of a class (capacity 0): classes that exist but are
     // empty (own random stream)
